@@ -5,6 +5,7 @@ CONSTANTS
   FIX_REPOINT = TRUE
   OPS = TRUE
   MASK_ADD = FALSE
+  MAXQ = 0
   ALIAS_OPS = FALSE
 INVARIANTS NoPanic TablesAgree MarksBacked ListOK MaskOK
 CHECK_DEADLOCK FALSE
